@@ -104,6 +104,11 @@ func (b *bodyBufferReader) Read(p []byte) (n int, err error) {
 		// reader has been closed and hence we don't attempt to do anymore read
 		return 0, io.EOF
 	}
+	if len(p) == 0 {
+		// a zero-length read says nothing about the end of the body (io.MultiReader would drop
+		// this reader, and with it the whole buffered body, on an io.EOF)
+		return 0, nil
+	}
 
 	if !environment.HasAccessToFS || b.br.writer == nil {
 		buf := b.br.buffer.Bytes()
